@@ -76,6 +76,24 @@ Fixpoint write_value (v : value) : list N :=
                 end) l ++ [125]
   end.
 
+(* library.go str(x): a string is returned as is; bytes are transcoded UTF-8 to
+   UTF-8 (each ill-formed byte becomes U+FFFD); anything else is printed *)
+Fixpoint transcode (skip : nat) (s : list N) : list N :=
+  match s with
+  | [] => []
+  | _ :: t =>
+    match skip with
+    | S k => transcode k t
+    | O => let '(r, w) := utf8_decode s in utf8_encode r ++ transcode (w - 1) t
+    end
+  end.
+Definition str_value (v : value) : list N :=
+  match v with
+  | VStr s => s
+  | VBytes s => if valid_utf8 s then s else transcode 0 s
+  | _ => write_value v
+  end.
+
 (* ---- heaps: lists and dicts are references, so values can be cyclic --------- *)
 Inductive hval :=
 | HLeaf (v : value)                        (* None, bool, int, float, string, bytes *)
@@ -201,21 +219,24 @@ Definition read_number (neg : bool) (s : list N) : rres :=
       | None => RErr                                       (* literal too large *)
       end
     end in
-  match r1 with
-  | 46 :: t =>                                              (* '.' *)
-    let '(fp, r2) := span_digits t in
-    match ip, fp with
-    | [], [] => RErr
-    | _, _ => mk_float (ip ++ fp) (length fp) r2
-    end
-  | _ =>
+  let no_fraction : rres :=
     match ip with
     | [] => RErr
     | d0 :: more =>
       if is_exp r1 then mk_float ip 0%nat r1
       else if (d0 =? 48) && negb (match more with [] => true | _ => false end) then RErr
       else ROk (VInt (if neg then (- Z.of_N (digits_val 0 ip))%Z else Z.of_N (digits_val 0 ip))) r1
-    end
+    end in
+  match r1 with
+  | c :: t =>
+    if c =? 46 then                                          (* '.' *)
+      let '(fp, r2) := span_digits t in
+      match ip, fp with
+      | [], [] => RErr
+      | _, _ => mk_float (ip ++ fp) (length fp) r2
+      end
+    else no_fraction
+  | [] => no_fraction
   end.
 
 Definition is_key_ok (v : value) : bool :=
